@@ -17,6 +17,8 @@ Conforms(in, obs) ==
   /\ obs.extra = 0
   /\ (obs.exit # 0) <=> (run.failed # <<>> \/ run.errs > 0)
   /\ (run.failed # <<>> => obs.diag)
+  \* -delete is false exactly where the removal failed: an alternative action of the same expression sees those entries
+  /\ ("notdel" \in DOMAIN obs => obs.notdel = run.failed)
 
 Describe(in) == LET run == DeleteRun(in.tree, CfgOf(in), in.roots, in.pre) IN
                 [matched |-> run.matched, deleted |-> run.deleted, failed |-> run.failed,
